@@ -10,6 +10,8 @@ from ..core import fingerprint, fp_watch
 from ..monitors import weaver_inv
 from ..monitors.contracts import Slot
 
+from . import _jobs  # noqa: E402
+
 PROPERTY = "C09"
 LEVEL = "exploration"
 LEVEL_TEXT = ("Three monitors on the real Weaver over random programs of up to 10 operations from the whole public API: "
@@ -30,13 +32,17 @@ RULE = ("program = constructor variant (arrays / lists / int dtype / strided / r
         "by case index."
         " Also: from_csv, from_dataframe with default and named columns, programs on int32 / int16 storage with integer-typed normalise bounds, numpy.bool_ / 0 / 1 flags, read-only probes whose return values are compared with the current series."
         " Round-4 classes: trend callables that are pure functions of a number but not elementwise maps of an array (sum over terms, dot with the power vector, math.sin, branching) or that fold their local argument in place; operations in drawn call forms; counts as NumPy integer scalars.")
-REQUIRED_MONITORS = ["weaver_invariant", "c09:caller_arrays", "c09:original_unchanged", "c09:restore_differential"]
+REQUIRED_MONITORS = ["threads:weaver", "c09:duplicate", "weaver_invariant", "c09:caller_arrays", "c09:original_unchanged", "c09:restore_differential"]
 ASSUMPTIONS = ["operations are generated with admissible arguments only; an exception from such an operation is reported",
                "indices-based truncation is only issued while working and reference series are the same samples"]
 NSHARDS = 16
 
 
 def plan(tier, seed):
+    return _plan(tier, seed) + _jobs.plan(tier)
+
+
+def _plan(tier, seed):
     n = 6000 if tier == "quick" else 450000
     return [{"kind": "program", "start": p * (n // NSHARDS), "count": n // NSHARDS} for p in range(NSHARDS)] + \
         [{"kind": "suite"}]
@@ -215,6 +221,7 @@ def run_case(ctx, kind_, idx):
             ctx.count("ctor:%s" % how.split("(")[0])
             n1 = int(rng.integers(0, 7))
             executed = 0
+            dup = None
             for _ in range(n1):
                 after_recreate = prog and isinstance(prog[-1], dict) and prog[-1]["op"] == "recreate_from_average"
                 op = W.gen_op(rng, wv, allow=["integral_match"]) if after_recreate and rng.integers(0, 2) else None
@@ -228,6 +235,30 @@ def run_case(ctx, kind_, idx):
                 if not step(ctx, cid, rng, wv, op, guard, prog, "step %d %s" % (len(prog), op["op"])):
                     return
                 executed += 1
+                # ---- a duplicate of the live object (copy.deepcopy / pickle round trip) is the same object from then on
+                if dup is not None:
+                    try:
+                        W.apply(dup, op, salt=1)
+                    except Exception as e:
+                        ctx.exception("duplicate_differs_from_the_object_it_was_copied_from", cid, e,
+                                      {"at": "the duplicate raised where the object did not", "program": prog})
+                        return
+                    ctx.monitor("c09:duplicate")
+                    if not same_state(snap(wv), snap(dup)):
+                        ctx.violation("duplicate_differs_from_the_object_it_was_copied_from", cid,
+                                      {"at": W.printable(op), "program": prog})
+                        return
+                elif rng.integers(0, 6) == 0:
+                    import copy
+                    import pickle
+                    how_dup = ["copy.deepcopy", "pickle"][int(rng.integers(0, 2))]
+                    dup = copy.deepcopy(wv) if how_dup == "copy.deepcopy" else pickle.loads(pickle.dumps(wv))
+                    prog.append("duplicate taken by " + how_dup)
+                    ctx.monitor("c09:duplicate")
+                    if not same_state(snap(wv), snap(dup)):
+                        ctx.violation("duplicate_differs_from_the_object_it_was_copied_from", cid,
+                                      {"at": "immediately after " + how_dup, "program": prog})
+                        return
                 if rng.integers(0, 2):
                     before = snap(wv)
                     try:
@@ -282,6 +313,8 @@ def run_case(ctx, kind_, idx):
 
 
 def run(ctx, spec):
+    if spec["kind"] == "threads":      # concurrent independent requests vs their sequential answers
+        return _jobs.run(ctx, spec, ["weaver"])
     if spec["kind"] == "suite":     # the repository's own tests with the Weaver state monitor attached
         from .. import suite
         suite.run_suite(ctx, ["weaver_invariant"])
@@ -293,6 +326,8 @@ def run(ctx, spec):
 
 
 def replay(ctx, case):
+    if case["kind"] == "threads":
+        return _jobs.run_case(ctx, ["weaver"], case["idx"])
     Slot.ctx = ctx
     weaver_inv.install()
     run_case(ctx, case["kind"], case["idx"])
